@@ -100,6 +100,8 @@ def suite_call(ctx, case):
         out = None; impl = 'ERR rejected'
     except Exception as e:
         ctx.pred('call', case, False, '%s raised %s: %s' % (call, type(e).__name__, str(e)[:100]), key='C05:raises:' + call.rstrip('01HP')); return
+    dm = p.sys.domain; dm0 = p0.sys.domain
+    ctx.pred('call', case, bool(np.array_equal(dm.k, dm0.k) and np.array_equal(dm.r, dm0.r)), '%s changed the r / k grid of the object\'s Domain' % call, key='C05:corrupts-domain')
     ml = ctx.drv.ask(C06.drv_line(call))
     il = impl.replace(' nan', ' 7ff8000000000000')
     atols = G.group_atols(il.replace('7ff8000000000000', '0000000000000000'), 1e-7)
